@@ -409,6 +409,26 @@ def r09_8(ctx):
                     if m:
                         tests.setdefault(c, []).append((b, m[0], [tg for v, tg in ed if v != c and tg != m[0]]))
         ok = 92 in tests and 117 in tests
+        if not ok:
+            # prefix established by data flow: the digits decoded are what `strip_prefix(b"\\u")` returned (None -> no decode)
+            def strips(g):
+                return any(callee_is(tt, "strip_prefix") for bb, tt in g.calls()) and any(op_bytes(o) == b"\\u" for bb, ss, o in g.const_operands())
+            via = []
+            for hb, ht in second:
+                la = op_local(ht["args"][0])
+                sl, leaves = backward_slice(f, [la]) if la is not None else (set(), [])
+                hit = False
+                for lf in leaves:
+                    if lf[0] != "call":
+                        continue
+                    if callee_is(lf[2], "strip_prefix") and strips(f):
+                        hit = True
+                    for g in prog.closures_of(f):
+                        if g.id in (lf[2].get("arg_adts") or []) and strips(g):
+                            hit = True
+                via.append(hit)
+            if via and all(via):
+                ok = True
         bad = []
         for c, lst in tests.items():
             for b, match_t, mismatch_ts in lst:
